@@ -85,6 +85,8 @@ def check(chk, fx):
     from .. import golden, goldenreg
     golden.group(chk, fx, "DIAG", "reference summaries of the listing functions (what is printed, under which condition)",
                  goldenreg.GROUPS["DIAG"])
+    from .. import primrules
+    primrules.prims(chk, fx, "NAMEFILL")
     enums = c05._enum_values(fx)
     c05.conf(chk, fx, enums)
     lr.all_table_rules(chk, fx)
